@@ -35,7 +35,7 @@ def gates(pid: str) -> Rule:
 FROM_TO_DOM = ("prosemirror/model/from_dom.py", "prosemirror/model/to_dom.py")
 
 prop("C01", "RG gates on the step/replace mechanisms, RK-registry (all step types decodable)", [gates("C01"), rk.rule_rk_registry, rcustom.rule_rg3, rcustom.rule_rq])
-prop("C05", "RK-json (writer/reader key agreement for 11 to_json/from_json pairs), RK-registry, RT2 (attribute presence by membership), RG gates on conditional JSON keys", [rk.rule_rk_json, rk.rule_rk_registry, rt.rule_rt2, rf.rule_rf_json, gates("C05")])
+prop("C05", "RK-json (writer/reader key agreement for 11 to_json/from_json pairs), RK-registry, RT2 (attribute presence by membership), RG gates on conditional JSON keys", [rk.rule_rk_json, rk.rule_rk_registry, rt.rule_rt2, rf.rule_rf_json, rf.rule_rf_returns_fresh, gates("C05")])
 prop("C06", "RK-kinds (expression kinds agree between parser, NFA compiler and type), RM (group membership on split lists), RG gates of schema build", [rk.rule_rk_kinds, rsmall.rule_rm, rcustom.rule_nfa_loops, rcustom.rule_rec_guard, gates("C06")])
 prop("C08", "RS (flat record arrays ranges/mirror: writer arity, reader residues, selectors, accumulator), RI (guarded index not advanced before use), RL over map.py, RG gates of the mapping algebra", [
     rs.rule_rs_writers,
@@ -81,7 +81,7 @@ prop("C02", "RG gates of the replace algorithm (validation through close(), open
 prop("C03", "RN (get_map of both replace steps is the documented function of the fields apply uses; size-preserving steps report the empty map), RS-accumulator on StepMap.for_each, RP-add_step (the mapping receives the map of the step just recorded), RG forms of the node-level steps", [rn.rule_rn_formulas, rs.rule_rs_accumulator, rcustom.rule_rp_add_step, gates("C03"), lambda p, r: rn.rule_rsib(p, r, only=(), parts=("trio",))])
 prop("C04", "RG gates of history bookkeeping and of the inverse constructions", [gates("C04"), rn.rule_rn_formulas, rcustom.rule_rp_add_step, rf.rule_rf_accumulators, lambda p, r: rn.rule_rsib(p, r, only=("MarkStep",))])
 prop("C07", "RG gates: each validity predicate contains the conjuncts of the definition of validity", [gates("C07"), rcustom.rule_rc_dep, rsmall.rule_rm])
-prop("C10", "RF (no in-place write reaches a shared value): RF-mut (every in-place mutation has a fresh receiver or a declared non-value owner), RF-attr (value-type fields assigned only in __init__), RF-acc (accumulators append-only, single writer), RF-json, RD, RG gates on identity shortcuts", [rf.rule_rf_mutations, rf.rule_rf_attr_stores, rf.rule_rf_accumulators, rf.rule_rf_json, rsmall.rule_rd, rcustom.rule_copy_fresh, gates("C10")])
+prop("C10", "RF (no in-place write reaches a shared value): RF-mut (every in-place mutation has a fresh receiver or a declared non-value owner), RF-attr (value-type fields assigned only in __init__), RF-acc (accumulators append-only, single writer), RF-json, RD, RG gates on identity shortcuts", [rf.rule_rf_mutations, rf.rule_rf_attr_stores, rf.rule_rf_accumulators, rf.rule_rf_json, rsmall.rule_rd, rcustom.rule_copy_fresh, rf.rule_rf_returns_fresh, gates("C10")])
 prop("C11", "RP-fitter (placed / frontier-match pairing, frontier pushes), RG gates of the fitter (mark filter on placement, isolating barrier), RT on NodeType.allowed_marks", [rcustom.rule_rp_fitter, lambda p, r: rsmall.rule_re(p, r, files=("prosemirror/transform/replace.py", "prosemirror/transform/transform.py"), min_reads=0), gates("C11"), lambda p, r: rt.rule_rt(p, r, only={"prosemirror/model/schema.py::NodeType.allowed_marks"})])
 prop("C13", "RG gates of the mark planners (coalescing conditions, permission), RT on Mark.add_to_set, RU on clear_incompatible", [gates("C13"), lambda p, r: rt.rule_rt(p, r, only={"prosemirror/model/mark.py::Mark.add_to_set"}), lambda p, r: ru.rule_ru(p, r, files=("prosemirror/transform/transform.py",))])
 prop("C15", "RG gates of the fill and wrapper searches (generatable guard, seen-set discipline, BFS order)", [gates("C15")])
